@@ -30,6 +30,7 @@ RULES_DOC["R8"] = "= C01.R5: a unit cancelled in a yield-family callback is not 
 RULES_DOC["R9"] = "= C02.R5: every switch primitive release-stores RUNNING into the unit it switches to before the switch (a unit never executes while its state says READY)"
 RULES_DOC["X4"] = common.X4_DOC
 RULES_DOC["R10"] = "request bits: ABTI_thread_set_request ORs the given bits in, ABTI_thread_unset_request ANDs with their complement (~req): clearing one request never clears another that is still pending (a migration that completes does not erase a cancellation)"
+RULES_DOC["R14"] = "= C03.R7: the *_many routines reach every non-NULL handle of the array: units listed behind a NULL slot are TERMINATED when join_many returns (and can be revived)"
 RULES_DOC["R13"] = "= C13.R2: serving a migration request clears exactly the MIGRATE bit (ABTI_thread_unset_request), once: a cancel or join request posted in the meantime stays pending"
 RULES_DOC["R12"] = "request words are sets of bits: every branch on ABTI_thread::request / ABTI_sched::request tests bits with & -- never compares the whole word with one request constant (a pending join or cancel would hide a migration request, and vice versa)"
 RULES_DOC["R11"] = "= C03.R4: a joiner that is not a ULT (external thread, tasklet) is released through its futex; exit and resume_joiner agree on how such a joiner is recognised"
@@ -420,3 +421,4 @@ def run(P, rep, tier):
     rule_R12(P, rep)
     from . import C13
     common.borrow(rep, P, C13.rule_R2, "R13")
+    common.borrow(rep, P, C03.rule_R7, "R14")
